@@ -452,7 +452,7 @@ func c19Depth(tier string) int {
 func init() {
 	Register(&Prop{
 		ID:    "C19",
-		Rule:  "one execution = one sequence of ≤depth calls (Parse/Validate, absent/present inputs given as maps, []any, typed slices, structs, pointers) under {stock formatter, stock formatter over templates that mention {{value}}} on ONE schema object whose PostTransforms overwrite and append to their destination; after every call: deep snapshot (incl. hidden capacity) of every value handed to a builder (slice/nested defaults, OneOf lists, Contains params) and of every input is unchanged, the schema object itself (every field at any depth, incl. each test's parameter map) is unchanged, the destination shares no backing array with them, and a repeated call observes exactly what its first occurrence observed; every sequence is non-trivial; distinct = distinct (schema, call sequence)",
+		Rule:  "one execution = one sequence of ≤depth calls (Parse/Validate, absent/present inputs given as maps, []any, typed slices, structs, pointers) under {stock formatter, stock formatter over templates that mention {{value}}} on ONE schema object whose PostTransforms overwrite and append to their destination; after every call: deep snapshot (incl. hidden capacity) of every value handed to a builder (slice/nested defaults, OneOf lists, Contains params) and of every input is unchanged, the schema object itself (every field at any depth, incl. each test's parameter map) is unchanged, the destination shares no backing array with them, and a repeated call observes exactly what its first occurrence observed; every sequence is non-trivial; distinct = distinct (schema, call sequence). plus " + callsRule + ". plus " + layoutRule,
 		Floor: 20,
 		Bound: func(tier string) string { return fmt.Sprintf("all call sequences of length ≤%d over 9 schema families, every field visit order", c19Depth(tier)) },
 		Assumptions: []string{"mutating callbacks only write through the pointer they are given"},
@@ -461,6 +461,10 @@ func init() {
 			for i := range c19Schemas() {
 				items = append(items, Item{Name: fmt.Sprintf("schema%d", i), MaxDevs: -1, Run: c19Scenario(i, c19Depth(tier))})
 			}
+			// across schemas: sequences of calls on different schema objects that share the pools
+			items = append(items, callsItems(tier, "C19", "schema-modified", "depends-on-history", "nested-call-differs")...)
+			// a schema behaves identically on every later use, also with another destination type
+			items = append(items, layoutItems(tier, "C19", "panic", "issues", "issues-missing", "destination", "callbacks")...)
 			return items
 		},
 	})
